@@ -279,12 +279,14 @@ class SimDisk:
         _stamp(p)
         return p
 
-    def materialize_dir(self, name: str) -> str:
-        """Extract zip `name` into a scratch directory (directory-form package)."""
+    def materialize_dir(self, name: str, link: bool = False) -> str:
+        """Extract zip `name` into a scratch directory (directory-form package).  link=True: the sub-directories of the second level that
+        hold files (ppt/media, ppt/slides, ...) live elsewhere on the disk and are reached through symbolic links (a shared media folder)."""
         import io
         import zipfile
         d = os.path.join(scratch_dir(), name.replace("/", "_") + ".d")
         shutil.rmtree(d, ignore_errors=True)
+        shutil.rmtree(d + ".linked", ignore_errors=True)
         os.makedirs(d)
         with zipfile.ZipFile(io.BytesIO(self.files[name])) as z:
             for n in z.namelist():
@@ -295,4 +297,20 @@ class SimDisk:
                 with open(p, "wb") as f:
                     f.write(z.read(n))
                 _stamp(p)
+        if link:
+            store = d + ".linked"
+            os.makedirs(store)
+            k = 0
+            for top in sorted(os.listdir(d)):
+                tp = os.path.join(d, top)
+                if not os.path.isdir(tp):
+                    continue
+                for sub in sorted(os.listdir(tp)):
+                    sp = os.path.join(tp, sub)
+                    if os.path.isdir(sp) and not sub.startswith("_rels") and k % 2 == 0:
+                        dest = os.path.join(store, "%d-%s" % (k, sub))
+                        shutil.move(sp, dest)
+                        os.symlink(dest, sp)
+                    if os.path.isdir(sp):
+                        k += 1
         return d
